@@ -265,6 +265,9 @@ func init() {
 		c := new(Value)
 		*c = zero(t)
 		gf := &genFile{name: T(a[1]), cell: c}
+		if pp, ok := a[0].(Ptr); ok {
+			gf.plugin = pp.P
+		}
 		e.genFiles = append(e.genFiles, gf)
 		return Ptr{P: c}
 	})
@@ -323,13 +326,20 @@ func init() {
 	_ = goIdentText
 	// zzverif.Trace(plugin) []TraceFile{Name string; Lines []string}
 	regVerif("Trace", func(e *Engine, fn *ssa.Function, a []Value, s ssa.Instruction) Value {
-		out := make(Slice, len(e.genFiles))
-		for i, g := range e.genFiles {
+		var want *Value
+		if pp, ok := a[0].(Ptr); ok {
+			want = pp.P
+		}
+		out := Slice{}
+		for _, g := range e.genFiles {
+			if want != nil && g.plugin != want {
+				continue
+			}
 			lines := make(Slice, len(g.lines))
 			for j, l := range g.lines {
 				lines[j] = l
 			}
-			out[i] = Struct{g.name, lines}
+			out = append(out, Struct{g.name, lines})
 		}
 		return out
 	})
